@@ -16,7 +16,7 @@ LEVEL_TEXT = ('Lean 4 theorems, for all shapes, masks, amplitudes and OPDs: a su
               'add up to the phasor of the global mask, also with overlapping bounding boxes; a plane multiplies the summed embedding by its '
               'transmission, so chains of planes give the same total field for both descriptions; propagate_dft is additive in the embedded '
               'field; intensity is the squared modulus of the coherent sum; composed end to end (segmented_eq_monolithic_end_to_end): fresh wavefront, '
-              'any chain of partitioned planes, propagation (generated window block) -> equal Wavefront.field and intensity at every sample. The NumPy plumbing is a hand model checked against the '
+              'a fresh wavefront through any non-empty chain of array-masked partitioned planes, then propagate_dft as the driver models it (generated window block and shapes, a tilt shift common to all fields, optional output mask: segmented_eq_monolithic_propagateDft) -> equal Wavefront.field and intensity at every sample; well-formedness follows from the masks alone for constructed planes (splitPlane_wf_of_masks). The NumPy plumbing is a hand model checked against the '
               'implementation, with both descriptions run on the real code.')
 LEVEL_NOTE = ('Partial: segments / intermediate fields with exactly one element are excluded by hypothesis (open known finding '
               'KF-C03-one-pixel-segment); propagation is modelled for tilt-free fields without output mask (tilt and masks: C04, C02). '
@@ -26,16 +26,17 @@ GEN = ['Extent', 'FieldIdx', 'Helper', 'Window']
 OPS = ['C07', 'C03']
 RULE = ('cases: random supports on shapes 2..7, partitions into 1..5 segments (random labels = overlapping bounding boxes in half the cases, '
         'bands otherwise), chains of 1..3 masked Pupil planes with scalar/array amplitude and OPD, each plane described segmented or '
-        'monolithic, then propagate_dft with random per-axis sampling; plus 3..5 tilted segments (OPD ramps fitted by fit_tilt) propagated with prop_shape < shape so that the per-segment output fields overlap as chains, oversampling 1..3, output shape and prop_shape; exact stream '
+        'monolithic, then propagate_dft with random per-axis sampling (mixed Tilt/segmented chains also with an output mask); plus 3..5 tilted segments (OPD ramps fitted by fit_tilt) propagated with prop_shape < shape so that the per-segment output fields overlap as chains, oversampling 1..3, output shape and prop_shape; exact stream '
         '(no propagation, Gaussian-integer data) and float stream. distinct = canonical (shapes, partition, attribute kinds, propagation '
         'setting) signature; non-trivial = some plane has at least two segments')
 TRUSTED = ['NumPy slicing/broadcasting in Plane.multiply and util.boundary (modelled by hand in Model/Plane.lean)',
            'np.dot / einsum in fourier.dft2 compute the sums of products (Model/Fourier.lean; C01 checks dft2 itself)',
            'np.exp(1j*t) = cos t + i sin t']
 UNPROVEN = [
-            'chains with tilt elements (Tilt planes, Wavefront(tilt=), fitted tilts) are covered by correspondence (Model/PlaneTilt.lean + builderB Model/Propagate.lean, Model/Tilt.lean) and by the oracle; the end-to-end theorem is stated for tilt-free chains (tilt shifts: C04)',
-            'partitions containing a segment (or producing an intermediate field) with exactly one element (known finding KF-C03-one-pixel-segment)',
-            'propagation with fitted tilt or an output mask is outside this model (C04, C02)']
+            'the end-to-end theorems take a fresh wavefront and planes with array masks, and a shift common to all fields (shared Tilt planes, Wavefront(tilt=): common_tilts_plane/common_tilts_tilt); '
+            'per-segment fitted tilts (different shifts per field: the chain-overlap class), interleaving of Tilt planes inside the SplitPlane chain, and propagate_fft are covered by correspondence (c03.chain over builderB Model/Propagate.lean, Model/Tilt.lean) and oracle only',
+            'that Wavefront.intensity returns (wfIntensity /= none) under the hypotheses is not proved: the intensity clause is conditional on it',
+            'partitions containing a segment (or producing an intermediate field) with exactly one element (known finding KF-C03-one-pixel-segment)']
 ASSUMPTIONS = ['every segment bounding box and every intersection of boxes along the chain has more than one element (ExtOK: a condition on the bounding slices and shapes of the input, used by segmented_eq_monolithic_end_to_end)',
                'segment masks of one plane have pairwise disjoint supports']
 
@@ -248,8 +249,15 @@ def gen_mixed(rng):
         oshape = [int(rng.integers(3, 7)), int(rng.integers(3, 7))]
         pshape = None
         if rng.integers(0, 3) == 0: pshape = [int(rng.integers(2, oshape[0] + 1)), int(rng.integers(2, oshape[1] + 1))]
+        mask = None
+        if rng.integers(0, 3) == 0:          # output mask of propagate_dft: a random support inside the oversampled output array
+            ms = (oshape[0] * os_, oshape[1] * os_)
+            for _ in range(20):
+                m = (rng.random(ms) < 0.5).astype(int)
+                if m.sum() >= 2 and (np.ptp(np.where(m.any(axis=1))[0]) + 1) * (np.ptp(np.where(m.any(axis=0))[0]) + 1) > 1:
+                    mask = {'shape': [int(ms[0]), int(ms[1])], 'v': [int(x) for x in m.ravel()]}; break
         return {'kind': 'mixed', 'mode': 'cf', 'seg': seg, 'mono': mono, 'order': order, 'wtilt': wt, 'wavelength': wl,
-                'prop': {'du': du, 'os': os_, 'shape': oshape, 'prop_shape': pshape, 'dx': dx, 'z': fl}}
+                'prop': {'du': du, 'os': os_, 'shape': oshape, 'prop_shape': pshape, 'dx': dx, 'z': fl, 'mask': mask}}
     raise RuntimeError('generator could not build a mixed chain')
 
 def generate(rng, tier):
@@ -290,7 +298,7 @@ def tags(c):
         idx = [i for i, x in enumerate(c['order']) if not isinstance(x, dict)]
         before = bool(c['wtilt']) or any(isinstance(x, dict) for x in c['order'][:idx[0]])
         after = any(isinstance(x, dict) for x in c['order'][idx[0] + 1:])
-        return ['mixed-tilt-chain', 'mixed:tilt-before+after' if before and after else 'mixed:tilt-before' if before else 'mixed:tilt-after',
+        return (['mixed:output-mask'] if c['prop'].get('mask') else []) + ['mixed-tilt-chain', 'mixed:tilt-before+after' if before and after else 'mixed:tilt-before' if before else 'mixed:tilt-after',
                 'mixed:Wavefront(tilt)' if c['wtilt'] else 'mixed:no-wavefront-tilt']
     if c['kind'] == 'tilt':
         return ['tilted-segments', f"tilt:K={len(c['layers'])}", 'tilt:chain-spacing' if c['chain'] else 'tilt:random-spacing']
@@ -361,8 +369,10 @@ def _run_mixed(c, planes):
         w = w * (lentil.Tilt(x=x['x'], y=x['y']) if isinstance(x, dict) else H7.build_plane(planes[x], 'cf', wl))
     o = {'fields': [dict(H7.fld_out(f, 'cf'), tilts=_tilt_vals(f)) for f in w.data], 'focal': float(w.focal_length)}
     p = c['prop']
+    mk = p.get('mask')
     w2 = lentil.propagate_dft(w, pixelscale=tuple(p['du']), shape=tuple(p['shape']),
-                              prop_shape=None if p['prop_shape'] is None else tuple(p['prop_shape']), oversample=p['os'])
+                              prop_shape=None if p['prop_shape'] is None else tuple(p['prop_shape']), oversample=p['os'],
+                              mask=None if mk is None else np.array(mk['v']).reshape(mk['shape']))
     o['field'] = H7.arr_out(w2.field, 'cf'); o['intensity'] = H7.arr_out(w2.intensity, 'cf'); o['nout'] = len(w2.data)
     return o
 
@@ -392,7 +402,14 @@ def _req(c, planes):
     return r
 
 def _prop_req(p):
-    return {'dx': vlib.fl(p['dx']), 'du': vlib.fl(p['du']), 'os': p['os'], 'shape': p['shape'], 'prop_shape': p['prop_shape'] or p['shape']}
+    r = {'dx': vlib.fl(p['dx']), 'du': vlib.fl(p['du']), 'os': p['os'], 'shape': p['shape'], 'prop_shape': p['prop_shape'] or p['shape']}
+    mk = p.get('mask')
+    if mk is not None:
+        # the model takes lentil.boundary(mask): first/last row and column of the support
+        m = np.array(mk['v']).reshape(mk['shape'])
+        rows = np.where(m.any(axis=1))[0]; cols = np.where(m.any(axis=0))[0]
+        r['mask'] = [int(rows[0]), int(rows[-1]), int(cols[0]), int(cols[-1])]
+    return r
 
 def _mixed_req(c, planes):
     els = []
